@@ -184,7 +184,9 @@ CHECKS["C09"] = dict(
     "@ and dashes, newlines, non-ASCII in URL and payload) for 6 methods and JSON/text/form/multipart bodies are sent through the real "
     "transport to a recording API (request A); the exact string the failure report prints (as_curl_command with the sent request's "
     "headers, sanitisation off) is executed by `sh -c` with the real curl (request B); A and B are compared on method, raw URL, body "
-    "bytes and headers.",
+    "bytes and headers (multipart: part by part, each message read with the boundary it announces). In addition the commands that real "
+    "`st run` invocations PRINT for failures (unit and stateful phases, user headers, multi-line and multipart bodies) are cut out of "
+    "the report, executed, and must equal one of the failing requests the API received.",
     note="Header values are ASCII and payloads text, as the statement says; client-added headers and the test-case id are ignored.",
     technique="runtime monitoring: round-trip differential (sent request vs request produced by executing the printed command)",
     design_ref="DESIGN.md#c09",
